@@ -22,7 +22,9 @@ def run(ctx):
     ctx.guard(k17_entry, ctx, "C03")
     ctx.guard(order_independence_rule, ctx, "C03.order-independence")
     from ..rules_misc import collect_walk_effects, consistent_equality_rule
-    ctx.guard(consistent_equality_rule, ctx, "C03.one-equality", collect_walk_effects(ctx))
+    records = ctx.guard(collect_walk_effects, ctx)
+    if records is not None:
+        ctx.guard(consistent_equality_rule, ctx, "C03.one-equality", records)
     from ..rules_misc import warning_filter_rule, error_carriers_rule
     ctx.guard(warning_filter_rule, ctx, "C03.warning-reaches-caller")
     ctx.guard(error_carriers_rule, ctx, "C03.error-carriers")
@@ -30,3 +32,5 @@ def run(ctx):
     ctx.guard(assembly_layering_rule, ctx, "C03.assembly-layering")
     from ..rules_misc import identity_rule
     ctx.guard(identity_rule, ctx, "C03.identity")
+    from ..rules_ast import groupby_rule
+    ctx.guard(groupby_rule, ctx, "C03.groupby")
